@@ -4,7 +4,7 @@ import hc "verif/hcommon"
 
 func init() { props["C10"] = runC10 }
 
-const pipeRule = "one evaluation = one run of the real processing.ProcessFeatures on a generated scenario: 0-5 targets (random distinct ids incl. negative and > 2^32), a stream of 0-200 features (polygon 45%, multipolygon with 0-4 parts 25%, other kinds 30%: nil, point, linestring, multipoint, *polygon, collection, multilinestring; repeated identities allowed), an outcome table per (polygon or part, target) in {dropped, kept, split into 2-4} with three drop/split mixes, GOMAXPROCS 1-16, nine delay profiles over source / snap function / each target / each target's finish; distinct = distinct (target set, kinds, per-target outcomes); non-trivial = >= 2 targets, >= 3 features, at least one dropped and one split outcome"
+const pipeRule = "one evaluation = one run of the real processing.ProcessFeatures on a generated scenario: 0-5 targets (random distinct ids incl. negative and > 2^32), a stream of 0-200 features (polygon 45%, multipolygon with 0-4 parts 25%, one in twenty of them with 15-257 parts, other kinds 30%: nil, point, linestring, multipoint, *polygon, collection, multilinestring; repeated identities allowed), an outcome table per (polygon or part, target) in {dropped, kept, split into 2-4} with three drop/split mixes, GOMAXPROCS 1-16, nine delay profiles over source / snap function / each target / each target's finish; distinct = distinct (target set, kinds, per-target outcomes); non-trivial = >= 2 targets, >= 3 features, at least one dropped and one split outcome"
 
 var pipeTrusted = []string{
 	"modelled, not verified: Go semantics of unbuffered channel rendezvous, close, range-over-map order, sync.WaitGroup, goroutine start (Pipe/Model.v labels); the Go scheduler",
